@@ -180,6 +180,7 @@ class BalancingLearner(BaseLearner):
         elif strategy == "cycle":
             self._ask_and_tell = self._ask_and_tell_based_on_cycle
             self._cycle = itertools.cycle(range(len(self.learners)))
+            self._cycle_position = 0  # index of the learner that is next in line
         else:
             raise ValueError(
                 'Only strategy="loss_improvements", strategy="loss",'
@@ -258,6 +259,7 @@ class BalancingLearner(BaseLearner):
         points, loss_improvements = [], []
         for _ in range(n):
             index = next(self._cycle)
+            self._cycle_position = (index + 1) % len(self.learners)
             point, loss_improvement = self.learners[index].ask(n=1)
             points.append((index, point[0]))
             loss_improvements.append(loss_improvement[0])
@@ -574,13 +576,19 @@ class BalancingLearner(BaseLearner):
         for lrn, _data in zip(self.learners, data):
             lrn._set_data(_data)
 
-    def __getstate__(self) -> tuple[list[BaseLearner], CDIMS_TYPE, STRATEGY_TYPE]:
+    def __getstate__(self) -> tuple[list[BaseLearner], CDIMS_TYPE, STRATEGY_TYPE, int]:
         return (
             self.learners,
             self._cdims_default,
             self.strategy,
+            getattr(self, "_cycle_position", 0),
         )
 
-    def __setstate__(self, state: tuple[list[BaseLearner], CDIMS_TYPE, STRATEGY_TYPE]):
-        learners, cdims, strategy = state
+    def __setstate__(self, state):
+        learners, cdims, strategy, *rest = state
         self.__init__(learners, cdims=cdims, strategy=strategy)  # type: ignore[misc]
+        if strategy == "cycle" and rest:
+            # continue the cycle where the pickled learner stood
+            for _ in range(rest[0]):
+                next(self._cycle)
+            self._cycle_position = rest[0]
